@@ -4,7 +4,7 @@
 From Coq Require Import String.
 From Coq Require Import ZArith List Bool.
 From LasV Require Import Lib.Base Lib.Layout Gen.GenFormatBits Gen.GenC14 Model.Las Model.LasSpec Model.Laz
-  Proofs.LazProofs Proofs.LazBackendProofs Proofs.LazContract Proofs.LazWitness.
+  Proofs.LazProofs Proofs.LazBackendProofs Proofs.LazContract Proofs.LazWitness Model.LazSelect Proofs.LazSelectProofs.
 Import ListNotations.
 Open Scope list_scope.
 Open Scope Z_scope.
@@ -172,6 +172,92 @@ Theorem C14_transparent_append : forall ap, ap_ok ap -> (forall s o x, 0 <= ap s
 Proof. exact conf_append_transparent. Qed.
 Print Assumptions C14_transparent_append.
 
+(* ---- the decompression selection (Model/LazSelect.v; member table, all(), base(), the defaults of the entry points and the
+        table of to_lazrs() are dumped from the running class DecompressionSelection) ---- *)
+(* all() is the OR of every member of the Flag class - the last one, ALL_EXTRA_BYTES, included *)
+Theorem C14_selection_all_is_every_member :
+  selection_all = or_all (map snd selection_members)
+  /\ forall e, In e selection_members -> Z.land selection_all (snd e) = snd e /\ 0 < snd e.
+Proof. exact (conj sel_all_is_or sel_all_has_every_member). Qed.
+Print Assumptions C14_selection_all_is_every_member.
+
+(* what laspy.open / laspy.read / LasReader use when the caller passes no selection is all() *)
+Theorem C14_selection_defaults_are_all : length selection_defaults = 3%nat /\ forall e, In e selection_defaults -> snd e = selection_all.
+Proof. exact (conj sel_defaults_three sel_defaults_all). Qed.
+Print Assumptions C14_selection_defaults_are_all.
+
+(* to_lazrs(): all() reaches every layer of the backend, every layer is the image of a member, base() asks for none of
+   the optional layers; the model of to_lazrs agrees with the running function on all(), base(), 0 and every member *)
+Theorem C14_selection_all_reaches_every_layer :
+  (forall l, In l lz_layers -> has (sel_to_lazrs selection_all) l = true)
+  /\ (forall l, In l lz_layers -> exists m, In (m, l) selection_to_lazrs_table /\ In m (map snd selection_members))
+  /\ sel_to_lazrs selection_base = 0
+  /\ sel_to_lazrs selection_all = selection_all_to_lazrs.
+Proof. exact (conj sel_all_every_layer (conj sel_layers_one_member_each (conj (proj2 (proj2 sel_base_is_xy)) (proj1 sel_to_lazrs_dumped)))). Qed.
+Print Assumptions C14_selection_all_reaches_every_layer.
+
+(* ... and to_lazrs() sends every member to the backend layer of the SAME NAME (RGB to RGB, ALL_EXTRA_BYTES to the extra
+   bytes, XY_RETURNS_CHANNEL to the always-on base) *)
+Theorem C14_selection_members_map_to_their_layers : forall e, In e selection_members ->
+  exists l, layer_of_member (fst e) member_layer = Some l /\ In (snd e, l) selection_to_lazrs_table.
+Proof. exact sel_members_map_to_their_layers. Qed.
+Print Assumptions C14_selection_members_map_to_their_layers.
+
+(* skip_<m> / decompress_<m> / is_set_<m>, for every member m: all().skip_m() = all() without m, base().decompress_m() =
+   base() with m, m is set in all() and not set after skip_m() *)
+Theorem C14_selection_methods : forall m s d i1 i2, In (m, s, d, i1, i2) selection_method_table ->
+  s = Z.land selection_all (Z.lnot m) /\ d = Z.lor selection_base m /\ i1 = 1 /\ i2 = 0.
+Proof. exact sel_methods. Qed.
+Print Assumptions C14_selection_methods.
+
+(* a selection holding every layer leaves every record of every format as it is (any number of extra bytes); formats 0-5
+   ignore the selection; for the layered formats a byte comes back ANDed with what the selection lets through, and the
+   extra bytes come back exactly when ALL_EXTRA_BYTES is selected *)
+Theorem C14_selection_all_changes_nothing : forall sel, (forall l, In l lz_layers -> has sel l = true) ->
+  forall fmt rec, bytes_ok rec = true -> mask_record sel fmt rec = rec.
+Proof. exact mask_all_identity. Qed.
+Print Assumptions C14_selection_all_changes_nothing.
+
+Theorem C14_selection_bytewise : forall sel fmt rec k, 6 <= fmt ->
+  nth k (mask_record sel fmt rec) 0 = Z.land (nth k rec 0) (keep_byte sel fmt (Z.of_nat k))
+  /\ length (mask_record sel fmt rec) = length rec.
+Proof. exact mask_bytewise. Qed.
+Print Assumptions C14_selection_bytewise.
+
+Theorem C14_selection_extra_bytes : forall sel f std dims i, fmt_entry f = Some (f, std, dims) -> std <= i ->
+  keep_byte sel f i = if has sel L_EXTRA_BYTES then 255 else 0.
+Proof. exact extra_bytes_need_their_flag. Qed.
+Print Assumptions C14_selection_extra_bytes.
+
+Theorem C14_selection_ignored_below_6 : forall sel fmt rec, fmt < 6 -> mask_record sel fmt rec = rec.
+Proof. exact mask_ignored_below_6. Qed.
+Print Assumptions C14_selection_ignored_below_6.
+
+(* transparency with the selection in place: with no selection passed (the defaults above) or an explicit all(), a
+   backend that honours selections hands back what the uncompressed file of the same data holds *)
+Theorem C14_transparent_default_selection : forall ap, ap_ok ap -> forall B, conforming B -> forall h vl fmt recs evl f g backends junk sel,
+  wf_las ap h vl fmt recs evl -> wf_laz ap B h vl fmt recs evl ->
+  file_of ap h vl fmt recs evl = Ok f -> B_file_of ap B h vl fmt recs evl = Ok g ->
+  backends <> [] -> (sel = None \/ sel = Some selection_all) ->
+  exists lf lg, read_file f = Ok lf /\ B_read_sel B sel backends (g ++ junk) = Ok lg
+    /\ lz_points lg = lf_points lf /\ lf_points lf = recs
+    /\ rh_vlrs (lz_h lg) = rh_vlrs (lf_h lf) /\ rh_evlrs (lz_h lg) = rh_evlrs (lf_h lf).
+Proof. exact sel_transparent_whole. Qed.
+Print Assumptions C14_transparent_default_selection.
+
+Theorem C14_transparent_default_selection_nonseekable : forall ap, ap_ok ap -> forall B, conforming B -> forall h vl fmt recs evl g backends junk sel,
+  wf_las ap h vl fmt recs evl -> wf_laz ap B h vl fmt recs evl ->
+  B_file_of ap B h vl fmt recs evl = Ok g -> In false backends -> (sel = None \/ sel = Some selection_all) ->
+  exists lg, B_read_ns_sel B sel backends (g ++ junk) = Ok lg /\ lz_points lg = recs /\ rh_vlrs (lz_h lg) = vl.
+Proof. exact sel_transparent_nonseekable. Qed.
+Print Assumptions C14_transparent_default_selection_nonseekable.
+
+(* the statements that carry encoding_errors from the writer to every header / VLR / EVLR write have the expected shape,
+   for the compressing point writer as for the plain one (checked by the translator; the behaviour is compared by the harness) *)
+Theorem C14_encoding_errors_plumbing : gen_encoding_errors_reaches_header_writes = true /\ gen_selection_reaches_decompressor = true.
+Proof. split; reflexivity. Qed.
+Print Assumptions C14_encoding_errors_plumbing.
+
 (* the contract can be honoured: plain storage behind a unary record count is a conforming backend, so none of the
    theorems above is vacuous in its contract hypothesis (harness/fake_lazrs is the executable witness on the Python side) *)
 Theorem C14_contract_satisfiable : conforming store_backend.
@@ -217,6 +303,13 @@ Example C14_nonvacuous :
       && decide_open true false [46; 76; 97; 90] None false
       && negb (decide_open true false [46; 76; 97; 90] (Some false) true)
       && decide_lasdata false [] None true
+      (* a format-6 record with two extra bytes: all() hands it back, all() without ALL_EXTRA_BYTES zeroes the extra bytes,
+         base() keeps x, y, the returns byte and the scanner channel only *)
+      && list_eqb (mask_record (sel_to_lazrs selection_all) 6 (ex_r 5 ++ [7; 9])) (ex_r 5 ++ [7; 9])
+      && list_eqb (mask_record (sel_to_lazrs (Z.land selection_all (Z.lnot 4096))) 6 (ex_r 5 ++ [7; 9])) (ex_r 5 ++ [0; 0])
+      && list_eqb (mask_record (sel_to_lazrs selection_base) 6 (le_enc 4 5 ++ repeat 255 26 ++ [7]))
+                  (le_enc 4 5 ++ [255; 255; 255; 255] ++ repeat 0 6 ++ [255; 48] ++ repeat 0 15)
+      && list_eqb (mask_record 0 3 (repeat 9 34)) (repeat 9 34)
   | _, _ => false
   end = true.
 Proof. vm_compute. reflexivity. Qed.
